@@ -28,8 +28,9 @@ def reset_calls():
 class SerialPool:
     """order-preserving serial model of multiprocessing.Pool (real worker scheduling is outside the claim)"""
 
-    def __init__(self, *a, **k):
-        pass
+    def __init__(self, processes=None, *a, **k):
+        if processes is not None and int(processes) < 1:
+            raise ValueError("Number of processes must be at least 1")      # multiprocessing.Pool's documented argument check
 
     def __enter__(self):
         return self
@@ -42,6 +43,16 @@ class SerialPool:
 
     def map(self, f, it, chunksize=None):
         return [f(a) for a in it]
+
+    def imap(self, f, it, chunksize=1):
+        return iter([f(a) for a in it])
+
+    def imap_unordered(self, f, it, chunksize=1):
+        # contract: results in ARBITRARY order; the model returns a legal order that differs from submission order whenever it can
+        return iter(list(reversed([f(a) for a in it])))
+
+    def apply(self, f, args=(), kwds=None):
+        return f(*args, **(kwds or {}))
 
     def close(self):
         pass
@@ -253,6 +264,45 @@ def binary_erosion(input, structure=None, iterations=1, mask=None, output=None, 
     return SArr(out, BOOLDT, input.shape)
 
 
+def binary_fill_holes(input, structure=None, output=None, origin=0):
+    """scipy.ndimage.binary_fill_holes: background that is not connected (default: face connectivity) to the outside of the array becomes
+    foreground.  Reachability from outside as a bounded fixpoint over the cells (n rounds suffice for n cells)."""
+    if structure is not None or output is not None or origin != 0:
+        raise Unsupported("binary_fill_holes option")
+    if isinstance(input, rnp.ndarray):
+        input = symnp.from_numpy(input)
+    shape = input.shape
+    cs = coords(shape)
+    pos = {c: i for i, c in enumerate(cs)}
+    fg = [ctruth(c) for c in input.cells]
+    bg = [_cell_not(c) for c in fg]
+
+    def nbs(c):
+        out = []
+        outside = False
+        for ax in range(len(shape)):
+            for d in (-1, 1):
+                q = tuple(x + (d if k == ax else 0) for k, x in enumerate(c))
+                if q in pos:
+                    out.append(pos[q])
+                else:
+                    outside = True
+        return out, outside
+    info = [nbs(c) for c in cs]
+    reach = [bg[i] if info[i][1] else False for i in range(len(cs))]
+    for _ in range(len(cs)):
+        new = []
+        for i in range(len(cs)):
+            acc = reach[i]
+            for j in info[i][0]:
+                acc = _cell_logic(acc, _cell_logic(bg[i], reach[j], "and"), "or")
+            new.append(acc)
+        reach = new
+    out = [_cell_logic(fg[i], _cell_logic(bg[i], _cell_not(reach[i]), "and"), "or") for i in range(len(cs))]
+    CALLS.append(("binary_fill_holes", {"shape": shape}))
+    return SArr(out, BOOLDT, shape)
+
+
 def euclidean_feature_transform(input_array, sampling, ft):
     """writes into ft, for every element, the index of a zero element of input at minimal Euclidean distance.
     Ties are resolved towards the first candidate in scan order; only the (tie-invariant) distance is consumed by the repo."""
@@ -371,6 +421,7 @@ def default_fakes(np_module):
     nd._ni_support = real_ndimage._ni_support
     nd.generate_binary_structure = real_ndimage.generate_binary_structure
     nd.binary_erosion = binary_erosion
+    nd.binary_fill_holes = binary_fill_holes
     nd.label = scipy_label
     nd.find_objects = find_objects
     ndi = types.ModuleType("scipy.ndimage._nd_image")
